@@ -5,6 +5,7 @@ method x path x protocol x probe support on/off) replayed through the real stack
 """
 import rwcommon as rw
 import vf
+import wiring
 
 
 def classify(sc, kind, key):
@@ -19,8 +20,12 @@ def run(ctx):
     main = [s for s in scs if len(s['req']['ua']) <= 1]
     obs = rw.replay(ctx, scs)
     n, samples = rw.judge(ctx, main, obs, [], classify)
+    wsc, wobs = wiring.replay_rewrite(ctx, main, limit=200)
+    nw, _ = rw.judge(ctx, wsc, wobs, [], lambda sc, kind, key: {'via': 'real_wiring'}) if wsc else (0, [])
     dc_local = sum(1 for s in dc if obs[s['id']].get('body') == 'OK')
     cov = rw.coverage(ctx, main, n, samples,
                       'one scenario per initial state of family "probe"; local reply (200 "OK", backend untouched) XOR exactly one forward')
+    cov['scenarios_replayed_through_real_flag_wiring'] = nw
+    cov['traces_validated_against_impl'] = n + nw
     cov['dont_care_two_user_agent_lines'] = {'replayed': len(dc), 'answered_locally': dc_local}
-    return ctx.finish(cov, assumptions=['the flag -> predicate wiring of fingerproxy.go is replicated by the harness (stack.Options.Probe)'])
+    return ctx.finish(cov, assumptions=['HTTP/1.1 scenarios are additionally replayed through the real wiring (flag.Parse -> defaultReverseProxyHTTPHandler -> defaultProxyServer) by an in-package driver'])
